@@ -8,6 +8,7 @@ import Driver.Writer
 import Driver.Static
 import Driver.Cli
 import Driver.SmBuilder
+import Driver.Cache
 open Lean Drv
 
 /-- dispatch on the prefix of "op" -/
@@ -24,6 +25,7 @@ def dispatch (j : Json) : R Json := do
   | "static" => StaticD.handle op j
   | "cli" => CliD.handle op j
   | "smb" => SmbD.handle op j
+  | "cache" => CacheD.handle op j
   | _ => throw s!"unknown op {op}"
 
 partial def loop (h : IO.FS.Stream) (out : IO.FS.Stream) : IO Unit := do
